@@ -16,6 +16,7 @@ import (
 type family struct {
 	N         int
 	W         int
+	WSet      []uint32 // explicit difficulty alphabet (overrides W)
 	Forbidden bool // additionally: each node in turn on the forbidden list
 	Filter    func(core.Blueprint) bool
 	Name      string
@@ -60,8 +61,12 @@ func TestCheck(t *testing.T) {
 	idx := 0
 	bound := ""
 	for _, f := range fams {
-		bound += fmt.Sprintf("[%s N=%d |W|=%d forbidden=%v] ", f.Name, f.N, f.W, f.Forbidden)
-		core.EnumBlueprints(f.N, core.WAlphabet(f.W), func(_ int, b core.Blueprint) {
+		bound += fmt.Sprintf("[%s N=%d |W|=%d forbidden=%v] ", f.Name, f.N, max(f.W, len(f.WSet)), f.Forbidden)
+		w := core.WAlphabet(f.W)
+		if f.WSet != nil {
+			w = f.WSet
+		}
+		core.EnumBlueprints(f.N, w, func(_ int, b core.Blueprint) {
 			if f.Filter != nil && !f.Filter(b) {
 				return
 			}
